@@ -21,12 +21,14 @@ import (
 	"path/filepath"
 	"sort"
 	"strings"
+	"sync"
 	"time"
 
 	"github.com/basekick-labs/arc/internal/api"
 	"github.com/basekick-labs/arc/internal/config"
 	kit "github.com/basekick-labs/arc/verifharness/internal/rowdeletekit"
 	"github.com/gofiber/fiber/v2"
+	"github.com/rs/zerolog"
 )
 
 type row struct {
@@ -42,6 +44,8 @@ type dataset struct {
 	Times    map[string][]int `json:"times"`     // layout -> seconds after the base timestamp, per row
 	PartDirs []string         `json:"part_dirs"` // partition directory of file 1..3
 	FileName string           `json:"file_name"` // the one base name every file carries
+	JunkDir  string           `json:"junk_dir"`  // partition of the unreadable file
+	JunkLays []string         `json:"junk_layouts"`
 }
 
 type pcase struct {
@@ -68,8 +72,56 @@ type reqStep struct {
 }
 
 type input struct {
-	Dataset dataset `json:"dataset"`
-	Cases   []pcase `json:"cases"`
+	Dataset  dataset `json:"dataset"`
+	Cases    []pcase `json:"cases"`
+	Overlaps []ocase `json:"overlaps"`
+}
+
+// ocase is one behaviour of specs/rowdelete/Overlap.tla of the family A.scan ; B completely ; A.rewrite*
+type ocase struct {
+	PA    json.RawMessage `json:"pa"`
+	PB    json.RawMessage `json:"pb"`
+	Lay   string          `json:"lay"`
+	TVA   []string        `json:"tva"`
+	TVB   []string        `json:"tvb"`
+	Final [][]int         `json:"final"`
+	DelA  int64           `json:"del_a"`
+	DelB  int64           `json:"del_b"`
+	FailA bool            `json:"fail_a"`
+	FailB bool            `json:"fail_b"`
+}
+
+// gate holds request A between its scan and its rewrites: the handler logs "Rewriting files to remove rows"
+// (Info) exactly there, synchronously on the request's goroutine; the log sink blocks on that line when armed.
+// No timing is involved. If the line is never written (message renamed) the gate is simply not reached.
+type gate struct {
+	mu      sync.Mutex
+	armed   bool
+	reached chan struct{}
+	release chan struct{}
+}
+
+func (g *gate) arm() {
+	g.mu.Lock()
+	g.armed = true
+	g.reached = make(chan struct{})
+	g.release = make(chan struct{})
+	g.mu.Unlock()
+}
+
+func (g *gate) Write(p []byte) (int, error) {
+	if bytes.Contains(p, []byte("Rewriting files to remove rows")) {
+		g.mu.Lock()
+		a := g.armed
+		g.armed = false
+		reached, release := g.reached, g.release
+		g.mu.Unlock()
+		if a {
+			close(reached)
+			<-release
+		}
+	}
+	return len(p), nil
 }
 
 type pred struct {
@@ -113,6 +165,11 @@ type result struct {
 	ReqKinds       map[string]int      `json:"requests_by_flags_and_outcome"`
 	FullTableCases int                 `json:"full_table_predicate_cases"`
 	ConstCases     int                 `json:"constant_predicate_cases"`
+	JunkCases      int                 `json:"junk_cases"`
+	Overlaps       int                 `json:"overlap_behaviours"`
+	OverlapGated   int                 `json:"overlap_gate_reached"`
+	OverlapMissed  int                 `json:"overlap_gate_missed"`
+	OverlapFailed  int                 `json:"overlap_requests_reporting_failed_files"`
 	Evaluations    int                 `json:"evaluations"`
 	SecondOpinion  int                 `json:"duckdb_second_opinion_rows"`
 	Disagreements  []string            `json:"oracle_disagreements"`
@@ -178,6 +235,12 @@ func render(p *pred, top bool) string {
 			n = "NOT "
 		}
 		return fmt.Sprintf("%s %sIN (%s)", p.C, n, strings.Join(ls, ", "))
+	case "likeu":
+		n := ""
+		if p.Neg {
+			n = "NOT "
+		}
+		return fmt.Sprintf("%s %sLIKE 'a_'", p.C, n)
 	case "like":
 		n := ""
 		if p.Neg {
@@ -246,6 +309,10 @@ func (h *handlerEnv) post(db, meas, where string, dry, confirm bool) (int, *delR
 	return resp.StatusCode, &dr, nil
 }
 
+// junkRel is the storage-relative path of the current case's unreadable file ("" = none); it is never read back.
+var junkRel string
+var junkBytes = []byte("PAR1 this is a truncated parquet file: no footer, no trailing magic")
+
 // readMeasurement reads every parquet file under rel with one query; extra (optional) is an
 // additional select expression whose value is returned per row in the second map.
 func readMeasurement(env *kit.Env, rel, extra string) (map[string][]string, map[string]string, error) {
@@ -260,9 +327,15 @@ func readMeasurement(env *kit.Env, rel, extra string) (map[string][]string, map[
 	}
 	var list []string
 	for _, f := range files {
+		if f == junkRel {
+			continue
+		}
 		list = append(list, "'"+kit.Esc(filepath.Join(env.Root, f))+"'")
 		name, _ := filepath.Rel(rel, f)
 		out[name] = []string{}
+	}
+	if len(list) == 0 {
+		return out, ext, nil
 	}
 	sel := selectList
 	if extra != "" {
@@ -417,6 +490,19 @@ func main() {
 			}
 		}
 		where := render(&p, true)
+		junkRel = ""
+		for _, jl := range inp.Dataset.JunkLays {
+			if jl == c.Lay {
+				junkRel = filepath.Join(rel, inp.Dataset.JunkDir, inp.Dataset.FileName)
+				if err := os.MkdirAll(filepath.Dir(filepath.Join(env.Root, junkRel)), 0o755); err != nil {
+					fail(err.Error())
+				}
+				if err := os.WriteFile(filepath.Join(env.Root, junkRel), junkBytes, 0o644); err != nil {
+					fail(err.Error())
+				}
+				res.JunkCases++
+			}
+		}
 		before, duck, err := readMeasurement(env, rel, fmt.Sprintf("CASE WHEN (%s) THEN 'T' WHEN NOT (%s) THEN 'F' ELSE 'N' END", where, where))
 		if err != nil {
 			fail("read before / second opinion for " + where + ": " + err.Error())
@@ -565,6 +651,11 @@ func main() {
 			res.Errors = append(res.Errors, fmt.Sprintf("confirmed delete %q: status %d resp %+v", where, st2, conf))
 		}
 		after, _, err := readMeasurement(env, rel, "")
+		if junkRel != "" {
+			if b, e := os.ReadFile(filepath.Join(env.Root, junkRel)); e != nil || string(b) != string(junkBytes) {
+				res.add(&res.drift, "unreadable-file-removed-or-rewritten", witness{Where: where, Layout: c.Lay, Before: before, TrueRows: c.ExpectedCount})
+			}
+		}
 		if err != nil {
 			fail("read after delete: " + err.Error())
 		}
@@ -681,6 +772,138 @@ func main() {
 			res.Samples = append(res.Samples, w)
 		}
 		os.RemoveAll(filepath.Join(env.Root, rel))
+	}
+	// ---- overlapping confirmed deletes (Overlap.tla): A is held between scan and rewrite while B runs completely
+	if len(inp.Overlaps) > 0 {
+		gw := &gate{}
+		dhA := api.NewDeleteHandler(env.Duck, env.Backend, &config.DeleteConfig{Enabled: true, ConfirmationThreshold: 1 << 30, MaxRowsPerDelete: 1 << 30},
+			nil, filepath.Join(env.Root, "_upload"), zerolog.New(gw).Level(zerolog.InfoLevel))
+		appA := fiber.New(fiber.Config{DisableStartupMessage: true})
+		dhA.RegisterRoutes(appA)
+		hA := &handlerEnv{env: env, app: appA}
+		junkRel = ""
+		for oi, c := range inp.Overlaps {
+			var pa, pb pred
+			if json.Unmarshal(c.PA, &pa) != nil || json.Unmarshal(c.PB, &pb) != nil {
+				fail("overlap predicates")
+			}
+			whereA, whereB := render(&pa, true), render(&pb, true)
+			meas := fmt.Sprintf("o%d", oi)
+			rel := filepath.Join(db, meas)
+			byFile := tplFiles[c.Lay]
+			tuples := tuplesOf[c.Lay]
+			if byFile == nil || tuples == nil {
+				fail("overlap: unknown layout " + c.Lay)
+			}
+			fname := func(f int) string { return filepath.Join(inp.Dataset.PartDirs[f-1], inp.Dataset.FileName) }
+			for f := range byFile {
+				if err := kit.CopyFile(filepath.Join(env.Root, "_tpl", c.Lay, fmt.Sprintf("f%d.parquet", f)), filepath.Join(env.Root, rel, fname(f))); err != nil {
+					fail("copy: " + err.Error())
+				}
+			}
+			before, _, err := readMeasurement(env, rel, "")
+			if err != nil {
+				fail("overlap read before: " + err.Error())
+			}
+			selected := map[string]bool{} // tuple selected by A or B
+			expFinal := map[string][]string{}
+			for f, idx := range byFile {
+				for _, i := range idx {
+					if c.TVA[i] == "T" || c.TVB[i] == "T" {
+						selected[tuples[i]] = true
+					}
+				}
+				var o []string
+				for _, id := range c.Final[f-1] {
+					o = append(o, tuples[id-1])
+				}
+				sort.Strings(o)
+				if len(o) > 0 {
+					expFinal[fname(f)] = o
+				}
+			}
+			gw.arm()
+			var stA int
+			var respA *delResp
+			var errA error
+			doneA := make(chan struct{})
+			go func() {
+				stA, respA, errA = hA.post(db, meas, whereA, false, true)
+				close(doneA)
+			}()
+			gated := false
+			select {
+			case <-gw.reached:
+				gated = true
+			case <-doneA:
+			}
+			stB, respB, errB := h.post(db, meas, whereB, false, true)
+			if gated {
+				close(gw.release)
+				<-doneA
+			}
+			res.Requests += 2
+			res.Overlaps++
+			if gated {
+				res.OverlapGated++
+			} else {
+				res.OverlapMissed++
+			}
+			if errA != nil || errB != nil || respA == nil || respB == nil {
+				fail(fmt.Sprintf("overlap requests: %v %v", errA, errB))
+			}
+			after, _, err := readMeasurement(env, rel, "")
+			if err != nil {
+				fail("overlap read after: " + err.Error())
+			}
+			okA, okB := stA == 200 && respA.Success, stB == 200 && respB.Success
+			if !okA || !okB {
+				res.OverlapFailed++
+			}
+			nBefore, nAfter := 0, 0
+			for _, v := range before {
+				nBefore += len(v)
+			}
+			for _, v := range after {
+				nAfter += len(v)
+			}
+			w := witness{Where: whereA + "   ||   " + whereB, Layout: c.Lay, Before: before, After: after, ExpectedKeep: expFinal,
+				Deleted: respA.DeletedCount + respB.DeletedCount, Disappeared: nBefore - nAfter,
+				Note: fmt.Sprintf("request A (%q) held between scan and rewrite=%v while request B (%q) ran; A answered %d %+v ; B answered %d %+v", whereA, gated, whereB, stA, *respA, stB, *respB)}
+			files := map[string]bool{}
+			for f := range before {
+				files[f] = true
+			}
+			for f := range after {
+				files[f] = true
+			}
+			sigs := map[string]bool{}
+			for f := range files {
+				missing, extra := kit.MultisetDiff(expFinal[f], after[f])
+				for _, t := range missing {
+					w.Missing = append(w.Missing, f+": "+t)
+					sigs["overlapping-deletes:unselected-rows-deleted"] = true
+				}
+				for _, t := range extra {
+					w.Surviving = append(w.Surviving, f+": "+t)
+					if !selected[t] {
+						sigs["overlapping-deletes:rows-altered-or-invented"] = true
+					} else if okA && okB {
+						sigs["overlapping-deletes:selected-rows-survive"] = true
+					}
+				}
+			}
+			if okA && okB && respA.DeletedCount+respB.DeletedCount != int64(nBefore-nAfter) {
+				sigs["overlapping-deletes:reported-counts-differ-from-rows-disappeared"] = true
+			}
+			for s := range sigs {
+				res.add(&res.viol, s, w)
+			}
+			if gated && (respA.DeletedCount != c.DelA || respB.DeletedCount != c.DelB || okA == c.FailA || okB == c.FailB) {
+				res.add(&res.drift, "overlap-outcome-differs-from-Overlap.tla", w)
+			}
+			os.RemoveAll(filepath.Join(env.Root, rel))
+		}
 	}
 	for _, m := range []struct {
 		src map[string]*finding
